@@ -15,6 +15,8 @@ pub struct G {
     /// documents that belong to the source just generated (shapes whose documents are not
     /// derived from the rule by `doc_for`)
     pub own_docs: Option<Vec<J>>,
+    /// same_field_source: the quantified variants (topic samefq)
+    pub samefq: bool,
 }
 
 const FIELDS: &[&str] = &["f", "g", "h", "n", "m", "s.t", "s.u", "arr", "o", "arr[1]", "lst[0]"];
@@ -39,7 +41,7 @@ pub fn obj(kv: Vec<(String, J)>) -> J {
 
 impl G {
     pub fn new(seed: u64) -> G {
-        G { r: Rng::new(seed), kf_pct: 3, positive: false, own_docs: None }
+        G { r: Rng::new(seed), kf_pct: 3, positive: false, own_docs: None, samefq: false }
     }
 
     pub fn word(&mut self, max: usize, small: bool) -> String {
@@ -803,6 +805,14 @@ impl G {
                           "ids":[[cps(names[0]),{"t":"map","es":[{"m":"none","c":0,"f":cps("f"),"v":pat("exact", "x")}]}],
                                  [cps(names[1]),{"t":"map","es":[{"m":"none","c":0,"f":cps("f"),"v":pat("exact", "y")}]}]]});
         }
+        // 5: a rule that does not load because a key / the condition holds a malformed number token (`10.0.0.1`, `1.2.3`):
+        // whatever the tokeniser had in hand when it gave up must not reach the next rule loaded on that thread
+        if self.r.chance(1, 8) {
+            let bad = *self.r.pick(&["10.0.0.1", "1.2.3", "7..", "f 1.2.3", "1.2.3 f"][..]);
+            self.own_docs = Some(vec![obj(vec![("f".into(), s_node("x"))]), obj(vec![])]);
+            return json!({"_undef":true,"cond":{"t":"id","n":cps("A")},
+                          "ids":[[cps("A"),{"t":"map","es":[{"m":"none","c":0,"f":cps(bad),"v":pat("exact", "x")}]}]]});
+        }
         // 3: regexes over LONG values (600+ characters) with different outcomes, matched from several
         // threads at once in different orders
         if self.r.chance(1, 7) {
@@ -928,6 +938,41 @@ impl G {
                 vs.push(json!({"t":"pat","k":k,"ic":ic,"a":cps(w)}));
             }
             entries.push(if m == 1 { vs.pop().unwrap() } else { json!({"t":"list","vs":vs}) });
+        }
+        // quantified variants (C08): the entries under all(A) / of(A, n), or ONE key-level list under all(f) / of(f, n);
+        // an entry may repeat an earlier one, or be its case-flag twin - the count is over the entries as written
+        if self.samefq {
+            for i in 1..entries.len() {
+                if self.r.chance(1, 4) { entries[i] = entries[self.r.below(i)].clone(); }
+            }
+            let cnt = self.r.below(4);
+            let quant_all = self.r.chance(1, 3);
+            let mut docs = vec![];
+            let s = |x: &str| json!({"t":"S","s":cps(x)});
+            let one = |fv: J| json!({"t":"O","kv":[[cps("f"), fv]]});
+            let val = |k: &str, w: &str| -> String {
+                match k { "contains" => format!("zz {} zz", w), "prefix" => format!("{} zz", w), "suffix" => format!("zz {}", w), _ => w.to_string() }
+            };
+            let all_words = "cmd ps ws run cmd";
+            docs.push(one(s(all_words)));
+            docs.push(one(json!({"t":"A","vs":[s(all_words)]})));
+            docs.push(one(json!({"t":"A","vs":[s("zz"), s(all_words)]})));
+            docs.push(one(json!({"t":"A","vs":pats.iter().take(5).map(|(k, w)| s(&val(k, w))).collect::<Vec<J>>()})));
+            for (i, (k, w)) in pats.iter().enumerate() { if i < 4 { docs.push(one(s(&val(k, w)))); } }
+            if pats.len() >= 2 { docs.push(one(json!({"t":"A","vs":[s(&val(pats[0].0, pats[0].1)), s(&val(pats[1].0, pats[1].1))]}))); }
+            docs.push(one(s("zzzz")));
+            docs.push(json!({"t":"O","kv":[]}));
+            self.own_docs = Some(docs);
+            if self.r.chance(1, 2) {
+                // key-level list: every member one pattern
+                let vs: Vec<J> = pats.iter().take(6).map(|(k, w)| json!({"t":"pat","k":k,"ic":ic,"a":cps(w)})).collect();
+                let e = if quant_all { json!({"m":"all","c":0,"f":cps("f"),"v":{"t":"list","vs":vs}}) }
+                        else { json!({"m":"of","c":cnt,"f":cps("f"),"v":{"t":"list","vs":vs}}) };
+                return json!({"cond":{"t":"id","n":cps("A")},"ids":[[cps("A"),{"t":"map","es":[e]}]]});
+            }
+            let ms: Vec<J> = entries.iter().map(|v| json!({"t":"map","es":[{"m":"none","c":0,"f":cps("f"),"v":v}]})).collect();
+            let cond = if quant_all { json!({"t":"all","n":cps("A")}) } else { json!({"t":"of","n":cps("A"),"c":cnt}) };
+            return json!({"cond":cond,"ids":[[cps("A"),{"t":"seq","ms":ms}]]});
         }
         let form = self.r.below(4);
         let ent = |f: &str, v: &J| json!({"m":"none","c":0,"f":cps(f),"v":v});
@@ -2382,6 +2427,19 @@ pub fn gen_cases(topic: &str, seed: u64, n: usize, path: &str) -> Result<(), Str
             if keep {
                 writeln!(w, "{}", c).map_err(|e| e.to_string())?;
                 k += 1;
+                // every fourth modelled condition text is loaded AGAIN right away with one identifier block missing: the
+                // same text, another rule - whether it loads depends on the blocks this rule has, not on the text
+                if c["topic"] == "condfuzz" && c["oracle"] == true && g.r.chance(1, 4) {
+                    let mut c2 = c.clone();
+                    if let Some(ids) = c2["src"]["ids"].as_array_mut() {
+                        if ids.len() > 1 {
+                            let at = g.r.below(ids.len());
+                            ids.remove(at);
+                            writeln!(w, "{}", c2).map_err(|e| e.to_string())?;
+                            k += 1;
+                        }
+                    }
+                }
             }
         }
         w.flush().map_err(|e| e.to_string())?;
@@ -2395,10 +2453,11 @@ pub fn gen_cases(topic: &str, seed: u64, n: usize, path: &str) -> Result<(), Str
     for _ in 0..n {
         let mode = g.r.below(10);
         g.positive = matches!(topic, "opt" | "perm") && mode < 4;
-        let shape = if topic == "nm" { 2 } else if topic == "samef" { 10 } else if matches!(topic, "opt" | "adv" | "pure" | "find" | "lang" | "perm") { g.r.below(8) } else { 9 };
-        let topic = if topic == "nm" || topic == "samef" { "opt" } else { topic };
+        let shape = if topic == "nm" { 2 } else if topic == "samef" { 10 } else if topic == "samefq" { 11 } else if matches!(topic, "opt" | "adv" | "pure" | "find" | "lang" | "perm") { g.r.below(8) } else { 9 };
+        let topic = if topic == "nm" || topic == "samef" { "opt" } else if topic == "samefq" { "lang" } else { topic };
         g.own_docs = None;
-        let src = match shape { 10 => g.same_field_source(), 0 | 1 => g.matrix_source(), 2 => g.nested_merge_source(),
+        g.samefq = shape == 11;
+        let src = match shape { 10 | 11 => g.same_field_source(), 0 | 1 => g.matrix_source(), 2 => g.nested_merge_source(),
                                 5 if matches!(topic, "opt" | "lang" | "adv") => g.flag_mix_source(),
                                 6 | 7 if topic == "adv" => g.flag_mix_source(),
                                 3 if matches!(topic, "pure" | "opt" | "find") => g.deep_nested_source(),
@@ -2927,6 +2986,30 @@ pub fn gen_cases(topic: &str, seed: u64, n: usize, path: &str) -> Result<(), Str
                 json!({"topic":"num","oracle":true,"wt":true,"src":src,"docs":docs,
                        "plan":{"tri":true,"sws":[[], [true,true,true,true], [false,false,false,true], [true,false,false,true]]}})
             }
+            // ONE cast key evaluated on SEVERAL objects within one match: a nested block over an array of objects, or the same
+            // key at the top level and inside a nested block; the numbers are TEXTS (each object's own text is converted)
+            "num" if mode == 1 && g.r.chance(1, 3) => {
+                let m = *g.r.pick(&["int", "flt"][..]);
+                let cmp = |op: &str, n: &str| json!({"t":"cmp","op":op,"n":int_node(n)});
+                let cast_ent = |op: &str, n: &str| json!({"m":m,"c":0,"f":cps("pid"),"v":cmp(op, n)});
+                let o = |v: J| obj(vec![("pid".into(), v)]);
+                let (src, docs) = if g.r.chance(1, 2) {
+                    let src = json!({"cond":{"t":"id","n":cps("A")},
+                                     "ids":[[cps("A"),{"t":"map","es":[{"m":"none","c":0,"f":cps("procs"),"v":{"t":"map","es":[cast_ent("gt", "100")]}}]}]]});
+                    let arr = |vs: Vec<J>| obj(vec![("procs".into(), json!({"t":"A","vs":vs}))]);
+                    (src, vec![arr(vec![o(s_node("50")), o(s_node("500"))]), arr(vec![o(s_node("500")), o(s_node("50"))]),
+                               arr(vec![o(i_node("50")), o(s_node("500"))]), arr(vec![o(s_node("50")), o(s_node("70"))]),
+                               arr(vec![o(s_node("x")), o(s_node("500"))]), obj(vec![("procs".into(), o(s_node("500")))])])
+                } else {
+                    let src = json!({"cond":{"t":"id","n":cps("A")},
+                                     "ids":[[cps("A"),{"t":"map","es":[cast_ent("gt", "100"),
+                                             {"m":"none","c":0,"f":cps("p"),"v":{"t":"map","es":[cast_ent("lt", "100")]}}]}]]});
+                    let d = |a: &str, b: &str| obj(vec![("pid".into(), s_node(a)), ("p".into(), o(s_node(b)))]);
+                    (src, vec![d("500", "50"), d("50", "500"), d("500", "500"), d("50", "50"), d("500", "x")])
+                };
+                json!({"topic":"num","oracle":true,"wt":true,"src":src,"docs":docs,
+                       "plan":{"tri":true,"sws":[[], [true,true,true,true], [false,false,false,true]]}})
+            }
             // str(f) == str(g) in the condition: the decimal text of every integer kind
             "num" if mode == 1 => {
                 let op = "eq";
@@ -2948,6 +3031,13 @@ pub fn gen_cases(topic: &str, seed: u64, n: usize, path: &str) -> Result<(), Str
                 docs.push(obj(vec![("f".into(), z(false)), ("g".into(), z(true))]));
                 docs.push(obj(vec![("f".into(), nan.clone()), ("g".into(), nan)]));
                 docs.push(obj(vec![("f".into(), f_node("1.5")), ("g".into(), f_node("1.5"))]));
+                // both fields PRESENT and without a text form (null, array, object): not convertible, the comparison is false
+                let notext = [json!({"t":"N"}), json!({"t":"A","vs":[i_node("1")]}), json!({"t":"O","kv":[]}), json!({"t":"A","vs":[]})];
+                for a in notext.iter() {
+                    docs.push(obj(vec![("f".into(), a.clone()), ("g".into(), a.clone())]));
+                }
+                docs.push(obj(vec![("f".into(), notext[0].clone()), ("g".into(), notext[1].clone())]));
+                docs.push(obj(vec![("f".into(), notext[0].clone()), ("g".into(), s_node(""))]));
                 json!({"topic":"num","oracle":true,"wt":true,"src":src,"docs":docs,
                        "plan":{"tri":true,"sws":[[], [true,true,true,true]]}})
             }
@@ -3094,6 +3184,18 @@ pub fn gen_cases(topic: &str, seed: u64, n: usize, path: &str) -> Result<(), Str
                        json!({"topic":"opt","oracle":true,"wt":true,"src":src,"docs":docs,
                             "plan":{"tri":false,"sws":all17,"eng":true,"reopt":reopt}}) }
             // C03: accepted rules never panic: all switches, adversarial documents, validate
+            "adv" if mode == 9 => {
+                // keys with stray brackets: they load (an identifier token may hold [ and ] anywhere) and must then be
+                // matched - Object::find has to cope with `]` before `[`, doubled and empty brackets, on every document
+                let keys = ["a]b[0]", "args][0]", "x[0].y]z[1]", "a[0]]", "arr[[0]]", "arr[0][", "arr]", "arr[", "s.t]x[0]", "arr[1]x", "o.]["];
+                let k = *g.r.pick(&keys[..]);
+                let k2 = *g.r.pick(&keys[..]);
+                let src = json!({"cond":{"t":"or","l":{"t":"id","n":cps("A")},"r":{"t":"not","e":{"t":"id","n":cps("B")}}},
+                                 "ids":[[cps("A"),{"t":"map","es":[{"m":"none","c":0,"f":cps(k),"v":{"t":"pat","k":"any","ic":false,"a":[]}}]}],
+                                        [cps("B"),{"t":"map","es":[{"m":"int","c":0,"f":cps(k2),"v":{"t":"cmp","op":"ge","n":int_node("0")}}]}]]});
+                json!({"topic":"adv","oracle":false,"wt":false,"src":src,"docs":docs,"tps":[],"tns":[],
+                       "plan":{"tri":false,"sws":all17,"adv":true,"validate":true}})
+            }
             "adv" => {
                 let mut tps = vec![];
                 let mut tns = vec![];
@@ -3239,7 +3341,22 @@ pub fn gen_cases(topic: &str, seed: u64, n: usize, path: &str) -> Result<(), Str
             // every other representation must keep them floats)
             "repr" if mode == 6 => {
                 let cond = if g.r.chance(1, 3) { json!({"t":"not","e":{"t":"id","n":cps("A")}}) } else { json!({"t":"id","n":cps("A")}) };
-                if g.r.chance(1, 2) {
+                if g.r.chance(1, 3) {
+                    // TEXT values spelled like YAML 1.1 booleans, nulls and numbers: a string stays a string in every representation
+                    let words = ["yes", "no", "on", "off", "NO", "On", "YES", "y", "n", "true", "True", "null", "~", "1", "1.0", "0x10", "1e3", ".inf", ""];
+                    let w = *g.r.pick(&words[..]);
+                    let v = match g.r.below(4) {
+                        0 => json!({"t":"pat","k":"exact","ic":false,"a":cps(w)}),
+                        1 => json!({"t":"pat","k":"exact","ic":true,"a":cps(w)}),
+                        2 => json!({"t":"pat","k":"any","ic":false,"a":[]}),
+                        _ => json!({"t":"pat","k":"prefix","ic":false,"a":cps(&w.chars().take(1).collect::<String>())}),
+                    };
+                    let src = json!({"cond":cond,"ids":[[cps("A"),{"t":"map","es":[{"m":"none","c":0,"f":cps("f"),"v":v}]}]]});
+                    let docs: Vec<J> = words.iter().map(|t| obj(vec![("f".into(), s_node(t))])).collect();
+                    json!({"topic":"repr","oracle":true,"wt":true,"src":src,"docs":docs,
+                           "plan":{"tri":false,"scope":"sw","sws":[[], [true,true,true,true]],
+                                   "reprs":["json","jsontext","yamltext","hm","own","doc","ownfind"]}})
+                } else if g.r.chance(1, 2) {
                     let v = match g.r.below(4) {
                         0 => json!({"t":"pat","k":"exact","ic":false,"a":cps("x")}),
                         1 => json!({"t":"pat","k":"suffix","ic":false,"a":cps("x")}),
